@@ -142,7 +142,9 @@ def check(fs, want_model=False, strings_fallback=True, timeout_ms=None):
         stats['cache_hits'] += 1
         return _cache[key][0]
     s = z3.Solver()
-    s.set('timeout', int((timeout_ms or Z3_MS) * _load_scale()))
+    # obligation queries get the load-stretched budget; path-feasibility queries (strings_fallback=False) routinely end in
+    # "unknown" (= keep the path) and would only make every path slower
+    s.set('timeout', int((timeout_ms or Z3_MS) * (_load_scale() if strings_fallback else 1.0)))
     s.set('random_seed', SEED)
     for f in fs:
         s.add(f)
